@@ -303,6 +303,7 @@ def market_case(ctx, w, lo, up, bo, qo, via, tag):
         rep = {"kind": "market", "pool": U.pool_json(w.pool), "fee": fee, "tick": w.tick, "lower": lo, "upper": up, "base": None if bo is None else str(bo),
                "quote": None if qo is None else str(qo), "via": via, "base_balance": str(bb), "quote_balance": str(qb), "tag": tag,
                "int_zero": [isinstance(bo, int), isinstance(qo, int)]}
+        keys_before = set(w.market.positions.keys())
         try:
             if via == "by_tick":
                 r = w.market.add_liquidity_by_tick(lo, up, bo, qo)
@@ -326,6 +327,21 @@ def market_case(ctx, w, lo, up, bo, qo, via, tag):
                             f"from the wallet (balance {bal})", rep)
             elif Fraction(Decimal(reported)) != spent and abs(Fraction(Decimal(reported)) - spent) > Fraction(1, 10 ** 5) * max(spent, 1):
                 ctx.violate(f"market.add.reported.{name}", f"the call reports {reported} {name} used, the wallet gave {float(spent)}", rep)
+        # --- round trip on the state machine (theorem C07_roundtrip_market_price): a NEW position removed with collect at the unchanged price
+        #     returns exactly the (base_used, quote_used) the add reported and the wallet is credited with exactly those
+        if r[0] not in keys_before:
+            mb, mq = w.broker.get_token_balance(w.pool.base_token), w.broker.get_token_balance(w.pool.quote_token)
+            try:
+                got = w.market.remove_liquidity(r[0])
+            except Exception as e:  # noqa: BLE001
+                ctx.violate(f"market.roundtrip.raises.{type(e).__name__}", f"remove_liquidity of the position just added ([{lo},{up}], {regime}) raised {type(e).__name__}", rep)
+                return
+            ctx.count("market_roundtrips_checked")
+            if Decimal(got[0]) != Decimal(r[1]) or Decimal(got[1]) != Decimal(r[2]):
+                ctx.violate("market.roundtrip.amounts", f"add reported ({r[1]}, {r[2]}) used; removing at the unchanged price returns ({got[0]}, {got[1]})", rep)
+            ab, aq = w.broker.get_token_balance(w.pool.base_token), w.broker.get_token_balance(w.pool.quote_token)
+            if Decimal(ab) != Decimal(mb) + Decimal(r[1]) or Decimal(aq) != Decimal(mq) + Decimal(r[2]):
+                ctx.violate("market.roundtrip.credit", f"after add ({r[1]}, {r[2]} used) and remove the wallet went ({mb}, {mq}) -> ({ab}, {aq})", rep)
 
 
 def views_stream(ctx: Ctx, rng, n):
